@@ -881,15 +881,37 @@ def plan(prop, tier, seed):
         cases.append({"kind": "task", "pool": [e, e2], "ops": ops, "hashseeds": hashseeds})
     # -- instant aliases: one text, reference times that denote the same instant in zones
     #    whose local dates differ (aware datetimes compare and hash by instant)
-    for i in range(30 if quick else 400):
+    for i in range(70 if quick else 900):
         r = core.stream(core.derive_seed(base, "alias", i), "sched")
         from datetime import timedelta as _td, timezone as _tz
-        t = r.choice(workload.RELDAYS[:9] + ["this monday", "next friday", "8pm", "morning",
-                                            "eom", "31."])
-        if r.random() < 0.5:
+        fam_ = r.random()
+        if fam_ < 0.45:
+            t = r.choice(workload.RELDAYS[:9] + ["this monday", "next friday", "8pm", "morning",
+                                                "eom", "31."])
+        elif fam_ < 0.6:
+            # weekday + day of month, day + month, month alone, weekday alone: every rule that
+            # searches the calendar forwards from the reference date
+            t = r.choice(["%s %s" % (r.choice(workload.DOWS), r.choice(workload.DOMS)),
+                          "%s %s" % (r.choice(workload.DOMS), r.choice(workload.MONTHS)),
+                          "%s %s" % (r.choice(workload.MONTHS), r.choice(workload.DOMS)),
+                          r.choice(workload.DOWS), r.choice(workload.MONTHS),
+                          r.choice(workload.DOMS), r.choice(workload.PODS)])
+        else:
+            t = workload.structured_text(r)
+        if r.random() < 0.4:
             t += " " + r.choice(workload.CLOCKS)
         base_ = workload.ref_time(r, 2016, 2043).replace(
             hour=23, minute=r.choice([5, 30, 55]), second=0, microsecond=0)
+        if r.random() < 0.4:
+            # a partial date written with the fields of the earlier of the two local dates: it
+            # means that very day in one zone and a later one in the other
+            dn = ["monday", "tuesday", "wednesday", "thursday", "friday", "saturday",
+                  "sunday"][base_.weekday()]
+            mn = ["january", "february", "march", "april", "may", "june", "july", "august",
+                  "september", "october", "november", "december"][base_.month - 1]
+            t = r.choice(["%s %d." % (dn, base_.day), "%s %dth" % (dn[:3], base_.day),
+                          "%d. %s" % (base_.day, mn), "%s %d" % (mn, base_.day), dn,
+                          "%d." % base_.day, "%s %d. %s" % (dn, base_.day, mn)])
         a = base_.replace(tzinfo=_tz.utc)
         b = a.astimezone(_tz(_td(hours=r.choice([1, 2, 5, -10, 9]))))
         e1, e2 = {"text": t, "ts": fmt_ts(a)}, {"text": t, "ts": fmt_ts(b)}
